@@ -10,6 +10,7 @@ import Penguin.Model.Mux
 import Penguin.Lemmas.MuxBasic
 import Penguin.Lemmas.MuxStep
 import Penguin.Lemmas.PairCor
+import Penguin.Lemmas.MuxLeakDrop
 
 namespace Penguin.C06
 open Penguin Penguin.Mux
@@ -130,6 +131,44 @@ theorem stale_reset_cancels_new_request_full_fails :
                     opens := [{ req := 1, host := [], port := 80, retriesLeft := 2 }] }
     lookup (settle e).1.flows 9 = none ∧ (settle e).2 = [.wire (.frame (.connect 10 4 80 []))] := by
   decide
+
+/-! #### No stale slots: every history of one endpoint, any peer (`Lemmas/MuxLeak.lean`) -/
+
+/-- In every state an endpoint reaches — by any sequence of application calls and deliveries, from a
+    well-behaved peer or not, through the wind-down — an `Established` slot under flow id `x` refers
+    to a stream object whose id is `x`: the dropped-handle notification of a stream (which carries
+    the object's id) addresses that stream's own slot. -/
+theorem slots_address_their_own_object (o : Opts) (ops : List Mux.Op) :
+    let e := runOps { opts := o } ops
+    ∀ (fid i : Nat) (ob : Obj), lookup e.flows fid = some (.established i) → e.objs[i]? = some ob → ob.fid = fid :=
+  reachable_slotFid o ops
+
+/-- Once the flow table holds no slot for stream object `i`, it never holds one again, whatever the
+    application and the peer do next — in particular a later `Connect` or open request that reuses the
+    flow id gets a brand-new object: nothing revives the old one. -/
+theorem released_slot_never_returns (e : EP) (i : Nat) (hi : i < e.objs.length)
+    (h : ∀ fid, lookup e.flows fid ≠ some (.established i)) (ops : List Mux.Op) :
+    ∀ fid, lookup (runOps e ops).flows fid ≠ some (.established i) :=
+  no_slot_forever e i hi h ops
+
+/-- No leak: when the application drops a stream on a running, idle endpoint (any reachable one), the
+    task releases the slot of that stream during that very stimulus, and for every later history no
+    slot refers to the dropped stream's object. -/
+theorem dropped_stream_slot_released_forever (o : Opts) (pre post : List Mux.Op) (h i : Nat) (ob : Obj)
+    (hidle : IdleE (runOps { opts := o } pre))
+    (hh : (runOps { opts := o } pre).handleObj h = some (i, ob)) (hf : ob.fid ≠ 0) :
+    ∀ fid, lookup (runOps (applyOp (runOps { opts := o } pre) (.dropStream h)).1 post).flows fid ≠ some (.established i) := by
+  obtain ⟨hn, hi⟩ := dropStream_releases_slot _ h i ob (reachable_inv o pre) (reachable_slotFid o pre) hidle hh hf
+  exact no_slot_forever _ i hi hn post
+
+/-! Non-vacuity: an endpoint that accepted a stream on id 5 is idle and holds handle 0; after the
+    drop and a new `Connect` on the same id, slot 5 refers to the new object 1, not to object 0. -/
+private def pre6 : List Mux.Op := [.deliver (.msg (.frame (.connect 5 4 80 []))), .accept]
+example : IdleE (runOps { opts := {} } pre6) := ⟨by decide, by decide, by decide, by decide, by decide, by decide⟩
+example : ((runOps { opts := {} } pre6).handleObj 0).map (fun p => (p.1, p.2.fid)) = some (0, 5) := by decide
+example : lookup (runOps { opts := {} } pre6).flows 5 = some (.established 0) := by decide
+example : lookup (runOps (applyOp (runOps { opts := {} } pre6) (.dropStream 0)).1
+    [.deliver (.msg (.frame (.connect 5 4 80 [])))]).flows 5 = some (.established 1) := by decide
 
 /-! #### The pair: two endpoints and the wires, every interleaving (`Model/Pair.lean`)
 
